@@ -1,9 +1,9 @@
 (* Extraction of the executable C10 model (ExtrOcamlBasic only). *)
 From Coq Require Import ExtrOcamlBasic.
 From Coq Require Extraction.
-From LJT Require Import model.Color.
+From LJT Require Import model.Color model.Color565.
 Extraction Language OCaml.
 Extraction "x_c10.ml" cs_layout rows prec_of_bits amax_of_bits plane
   rgb_ycc_convert rgb_gray_convert rgb_rgb_convert
   ycc_rgb_convert gray_rgb_convert rgb_ext_convert grayscale_convert_d rgb_gray_convert_d
-  h2v1_rows h2v2_rows.
+  h2v1_rows h2v2_rows convert565 cmyk_ycck_convert ycck_cmyk_convert.
